@@ -1389,8 +1389,10 @@ def run_pairs(tasks, workers=16):
 
 def gen(ctx):
     cases = []
-    depth = ctx.scale(int(os.environ.get('C10_DEPTH', '4')), 8)
-    budget = ctx.scale(200000, 3000000)
+    # thorough: one level deeper everywhere, three times the edge budget per (file, alphabet) — about ten times the
+    # quick tier's cases; deeper bounds cost hours (depth 8 did not finish in 4 h) and are not registered
+    depth = ctx.scale(int(os.environ.get('C10_DEPTH', '4')), int(os.environ.get('C10_DEPTH_THOROUGH', '5')))
+    budget = ctx.scale(200000, 600000)
     stats = ctx.c10_stats = {}
     # two differently configured file objects in one process (other byte order): every interleaving of their
     # queries up to the depth bound; each answer is compared with the stateless answer for ITS file
@@ -1401,7 +1403,7 @@ def gen(ctx):
             continue
         sym = [(0, op) for op in pair_alphabet(mx)] + [(1, op) for op in pair_alphabet(my)]
         level = [[]]
-        for _ in range(ctx.scale(2, 4)):
+        for _ in range(ctx.scale(2, 3)):
             level = [h + [s] for h in level for s in sym]
             # histories on ONE of the two objects are what the single-file exploration covers: beyond length 1 only
             # histories that touch both objects are run
@@ -1455,7 +1457,7 @@ def gen(ctx):
             cases.append(('bfs', [name, h]))
     # long random histories with a Disturb after every call
     n_hist = ctx.scale(1, 6)
-    total = ctx.scale(1000, 100000)
+    total = ctx.scale(1000, 30000)
     for fi, name in enumerate(RANDOM_FILES):
         try:
             meta = load_file(name)
